@@ -214,7 +214,7 @@ def main(argv):
         os._exit(0)
 
 
-def run_in_subprocess(jobs, timeout=300):
+def run_in_subprocess(jobs, timeout=300, module='harness.realloop'):
     """run jobs (one pool-registry state) in a fresh interpreter; returns the list written by main()"""
     import signal
     import subprocess
@@ -228,7 +228,7 @@ def run_in_subprocess(jobs, timeout=300):
     env = dict(os.environ, PYTHONPATH=ROOT + os.pathsep + REPO)
     try:
         with open(ef, 'w') as err:
-            proc = subprocess.Popen([sys.executable, '-m', 'harness.realloop', jf, of], cwd=ROOT, env=env,
+            proc = subprocess.Popen([sys.executable, '-m', module, jf, of], cwd=ROOT, env=env,
                                     stdout=subprocess.DEVNULL, stderr=err, stdin=subprocess.DEVNULL, start_new_session=True)
             try:
                 proc.wait(timeout=timeout)
